@@ -93,6 +93,23 @@ func runC07(c *vlib.Ctx, sc c07Scenario) {
 			r.send("after-heal", 3)
 			time.Sleep(time.Second)
 		}
+	case "long-outage":
+		// the outage outlasts a WAL rotation (2 s): the rows of failed flushes sit in two
+		// or more rotated files of different ages when the maintenance ticks run
+		healthy("before-outage", 3, 50*time.Millisecond)
+		time.Sleep(900 * time.Millisecond)
+		a.SetCtl("storage.local.write fail outage\n")
+		r.log("storage writes fail (long outage)")
+		for i := 0; i < 22+sc.Var; i++ {
+			r.send("during-outage", 3)
+			time.Sleep(250 * time.Millisecond)
+		}
+		a.SetCtl("")
+		r.log("storage healed")
+		for i := 0; i < 14; i++ {
+			r.send("after-heal", 3)
+			time.Sleep(time.Second)
+		}
 	case "outage-through-shutdown":
 		healthy("before-outage", 4+sc.Var, 50*time.Millisecond)
 		time.Sleep(900 * time.Millisecond)
@@ -126,7 +143,7 @@ func runC07(c *vlib.Ctx, sc c07Scenario) {
 	}
 	ev := countEvents(a.Events())
 	switch sc.Kind {
-	case "transient-outage", "outage-through-shutdown":
+	case "transient-outage", "outage-through-shutdown", "long-outage":
 		faultSeen = ev["ingest.flush.write_failed"] > 0 || sc.Kind == "outage-through-shutdown"
 	default:
 		faultSeen = ev["ingest.enqueue.queue_full"] > 0
@@ -213,13 +230,13 @@ func runC07(c *vlib.Ctx, sc c07Scenario) {
 }
 
 func checkC07(c *vlib.Ctx) {
-	c.Rule("fault sequences against the real arc process (1 flush worker, 300 ms buffer age, WAL rotated every 2 s, WAL maintenance tick every second): transient storage-write outage (failpoint in LocalBackend.Write) with writes before/during/after; outage that lasts through a graceful SIGTERM shutdown then heals before restart; flush-queue saturation (queue of 2, slowed worker) with the WAL enabled and disabled. After faults stop: maintenance ticks for up to 40 s, one graceful restart, flush; then every acknowledged row id must be stored exactly once (WAL enabled) and no acknowledged row may be missing (WAL disabled). non-trivial = scenarios in which the fault was actually observed in the hook trace (flush write failed / queue_full)")
+	c.Rule("fault sequences against the real arc process (1 flush worker, 300 ms buffer age, WAL rotated every 2 s, WAL maintenance tick every second): transient storage-write outage (failpoint in LocalBackend.Write) with writes before/during/after; a long outage (~6 s) that outlasts a WAL rotation so the rows of failed flushes sit in several rotated files of different ages; outage that lasts through a graceful SIGTERM shutdown then heals before restart; flush-queue saturation (queue of 2, slowed worker) with the WAL enabled and disabled. After faults stop: maintenance ticks for up to 40 s, one graceful restart, flush; then every acknowledged row id must be stored exactly once (WAL enabled) and no acknowledged row may be missing (WAL disabled). non-trivial = scenarios in which the fault was actually observed in the hook trace (flush write failed / queue_full)")
 	c.Assume("'eventually' is restated as bounded progress: 40 s of maintenance ticks (safe age 30 s) plus one graceful restart with startup recovery")
 	c.Assume("line-protocol requests of one measurement; rows carry unique ids; storage is read with an independent Parquet reader")
 	variants := c.N(2, 12)
 	var scs []c07Scenario
 	for v := 0; v < variants; v++ {
-		for _, k := range []string{"transient-outage", "outage-through-shutdown", "queue-saturation", "queue-saturation-nowal"} {
+		for _, k := range []string{"transient-outage", "long-outage", "outage-through-shutdown", "queue-saturation", "queue-saturation-nowal"} {
 			scs = append(scs, c07Scenario{k, v})
 		}
 	}
